@@ -567,7 +567,10 @@ SPECS['C12']['obligations'] = SPECS['C12']['obligations'] + _edges_txt
 SPECS['C09']['obligations'] = SPECS['C09']['obligations'] + _edges_txt
 _dsn = _pair('c11', 'dataset_names', (400, 900), 'three channels: names from {A,B} x explicit dataset names from {none,A,B,A__1} (finite, exhaustive)',
              ['LogicalFile._get_unique_dataset_name', 'LogicalFile.add_channel'], shards=(8, 8))
+_dsn = _dsn + _pair('c11', 'dataset_names_sets', (300, 600), 'two channels: names {A,B} x explicit dataset names {none,A,B,A__1} x channel-set names {none,S} (finite, exhaustive)',
+                    ['LogicalFile._get_unique_dataset_name', 'LogicalFile.add_channel'], replay=D + 'replay_dataset_names_sets')
 SPECS['C11']['obligations'] = SPECS['C11']['obligations'] + _dsn
+SPECS['C18']['obligations'] = SPECS['C18']['obligations'] + _find('C11', 'ob_dataset_names_sets') + _find('C11', 'reach_dataset_names_sets')
 SPECS['C20']['obligations'] = SPECS['C20']['obligations'] + _dsn
 
 _rejorder = _pair('c14', 'rejected_order', (120, 120), 'a rejected add_zone between valid calls, named / unnamed set, set already in use', ['LogicalFile.add_zone', 'DLISFile.generator']) + [
